@@ -123,7 +123,9 @@ def cases() -> Any:
 
 def parts(tier: str) -> List[Part]:
     if tier == "thorough":
-        return [Part("signatures", "given", shards=16, examples=15000, strategy=cases, soft_deadline_s=3000)]
+        return [Part("signatures", "given", shards=16, examples=15000, strategy=cases, soft_deadline_s=3000),
+                # the same strategy driven by libFuzzer (atheris), guided by branch coverage of the `taskiq` package
+                Part("signatures_cov", "covguided", shards=4, examples=15000, strategy=cases, soft_deadline_s=3000)]
     return [Part("signatures", "given", shards=8, examples=1000, strategy=cases, soft_deadline_s=120)]
 
 
